@@ -37,10 +37,10 @@ Import ListNotations.
 
 (* ---------- entries and logs ---------- *)
 
-Record entry := mkEntry { eterm : nat; ekind : N; edata : N }.
+Record entry := mkEntry { eterm : nat; ekind : N; edata : N; eaux : N }.
 
 Definition entry_eqb (a b : entry) : bool :=
-  (eterm a =? eterm b) && (ekind a =? ekind b)%N && (edata a =? edata b)%N.
+  (eterm a =? eterm b) && (ekind a =? ekind b)%N && (edata a =? edata b)%N && (eaux a =? eaux b)%N.
 
 Fixpoint log_eqb (l1 l2 : list entry) : bool :=
   match l1, l2 with
@@ -302,7 +302,7 @@ Definition init (cf : config) (log0 : list entry) : gstate :=
       (map (fun j => (j, boot_term, 0)) (voters cf))
       [(boot_term, 0, [], voters cf)]
       (upd (fun _ => []) boot_term log0)
-      (map (fun j => (j, boot_term, length log0)) (voters cf))
+      (match log0 with [] => [] | _ => map (fun j => (j, boot_term, length log0)) (voters cf) end)
       log0
       [voters cf]
       (fun _ => 0).
